@@ -60,6 +60,9 @@ def vf_jobs(tier):
     J.append(Job('chain-table-2-hdrfail','vf/chain_table.c',defs=['-DKL=2','-DFETCHES=10','-DHDRFAIL'],cuts={'vorbisfile.c':['_seek_helper','_get_next_page','_get_prev_page_serial','_fetch_headers','_initial_pcmoffset','ov_raw_seek']},
         unwind=12,object_bits=12,witnesses=['open failed on a later link','chain opened'],models=ENV+['abstract chained file (M-frame(c))','header fetch of a later link may fail with any documented code'],tags=['C12','C09','C03'],
         functions=['_open_seekable2','_bisect_forward_serialno'],bounds='2 links, header fetch of the second link fails or succeeds',weight=4))
+    J.append(Job('F-initpcm','vf/f_initpcm.c',defs=['-DNPG=3','-DENV_BUDGET=6'],cuts={'vorbisfile.c':['_get_next_page']},unwind=8,unwindset=[('env_fill_page',None,28),('ogg_page_granulepos',None,10)],object_bits=12,
+        witnesses=['positive offset after counted packets','clamped to zero','no positioned page'],models=ENV+['ghost sample counter per the Vorbis I block overlap rule'],tags=['C04','C09','C03'],
+        functions=['_initial_pcmoffset'],bounds='<=3 pages, <=6 packet events, block sizes 64/128/2048 or non-audio, any header bytes'))
     for nm,d in (('F-prevserial',[]),('F-prevpage',['-DPLAIN'])):
         J.append(Job(nm,'vf/f_prevpage.c',defs=d,cuts={'vorbisfile.c':['_seek_helper','_get_next_page']},unwind=10,unwindset=[('env_fill_page',None,28)],object_bits=12,
             witnesses=['page found','error under persisting end of data']+([] if d else ["preferred stream's page returned although another stream's page follows it"]),models=ENV+['recurrence (lasso) check in the _seek_helper contract'],tags=['C03','C12','C09','C04','C07'],
